@@ -1,19 +1,22 @@
 #!/usr/bin/env python3
 """Copy confirmed seeded changes (/tmp/mut-*-out/<ID>/) into /verif/seeded/<ID>/ with meta.json."""
-import glob, json, os, re, shutil, subprocess
+import glob, json, os, re, shutil, subprocess, sys
+SRC = sys.argv[1] if len(sys.argv) > 1 else "/tmp/mut-*-out"
+RES = sys.argv[2] if len(sys.argv) > 2 else "/tmp/seedres"
+SUFFIX = sys.argv[3] if len(sys.argv) > 3 else ""
 VERIF = os.path.dirname(os.path.dirname(os.path.abspath(__file__)))
 head = subprocess.check_output(["git", "-C", "/repo", "rev-parse", "--short", "HEAD"], text=True).strip()
 rows = []
-for d in sorted(glob.glob("/tmp/mut-*-out/C*/")):
+for d in sorted(glob.glob(SRC + "/C*/")):
     pid = os.path.basename(os.path.dirname(d))
-    rp = f"/tmp/seedres/{pid}.json"
+    rp = f"{RES}/{pid}.json"
     if not os.path.exists(rp):
         continue
     try:
         res = json.loads(open(rp).read().strip().split("\n")[-1])
     except Exception:
         continue
-    dst = os.path.join(VERIF, "seeded", pid)
+    dst = os.path.join(VERIF, "seeded", pid + SUFFIX)
     os.makedirs(dst, exist_ok=True)
     for f in os.listdir(d):
         if f.startswith("FOREIGN") or f.startswith("_foreign") or f.startswith("foreign") or f.endswith(".log"):
